@@ -384,10 +384,10 @@ def _decode_uspfs_table(
     :returns: yields minimum-cost unordered super-reconciliations
     """
     if root_kind == SyntenyAssignment.LCA:
-        ancestor_synteny = lca_sets[root_object]
+        ancestor_synteny = set(lca_sets[root_object])
         root_synteny = sort_synteny(lca_sets[root_object])
     else:
-        ancestor_synteny |= gain_sets[root_object]
+        ancestor_synteny = ancestor_synteny | gain_sets[root_object]
         root_synteny = sort_synteny(ancestor_synteny)
 
     if (
